@@ -169,6 +169,9 @@ func startProc(race bool) (*proc, error) {
 	c.Stderr = p.errb
 	c.Env = append(os.Environ(), "GOMAXPROCS="+envOr("SIM_WORKER_PROCS", "2"))
 	if race {
+		c.Env = append(c.Env, "GOMAXPROCS=2")
+	}
+	if race {
 		procMu.Lock()
 		procSeq++
 		n := procSeq
@@ -176,7 +179,7 @@ func startProc(race bool) (*proc, error) {
 		p.dir = filepath.Join(os.TempDir(), fmt.Sprintf("simcheck-%d-%d", os.Getpid(), n))
 		os.MkdirAll(p.dir, 0o755)
 		logp := filepath.Join(p.dir, "race")
-		c.Env = append(c.Env, "GORACE=log_path="+logp+" halt_on_error=0 history_size=5", "SIM_RACE_LOG="+logp)
+		c.Env = append(c.Env, "GORACE=log_path="+logp+" halt_on_error=0 history_size=5 suppress_equal_stacks=0 suppress_equal_addresses=0", "SIM_RACE_LOG="+logp)
 	}
 	wi, err := c.StdinPipe()
 	if err != nil {
@@ -309,6 +312,8 @@ type knownFile struct {
 	} `json:"findings"`
 	Fixed []string `json:"fixed"`
 }
+
+var shrinkPool = 900
 
 func verifDir() string { return envOr("VERIF_DIR", "/verif") }
 
@@ -513,13 +518,32 @@ func supervise(prop, tier string) int {
 	return exit
 }
 
+// sameViolation: the violation v recurs in res. For data races the detector's choice of WHICH racing access pair
+// on an address it prints is not fully deterministic (about 1% of racy runs differ, see DESIGN.md §4), so a race
+// recurs when a reported pair shares at least one access (kind + function) with the recorded pair.
 func sameViolation(res *h.Result, v h.Violation) bool {
 	for _, x := range res.Violations {
 		if x.Property == v.Property && x.Class == v.Class && x.Signature == v.Signature {
 			return true
 		}
 	}
+	if v.Class == "data-race" {
+		want := raceSides(v.Signature)
+		for _, x := range res.Violations {
+			if x.Property == v.Property && x.Class == "data-race" {
+				for _, s := range raceSides(x.Signature) {
+					if s == want[0] || (len(want) > 1 && s == want[1]) {
+						return true
+					}
+				}
+			}
+		}
+	}
 	return false
+}
+
+func raceSides(sig string) []string {
+	return strings.Split(strings.TrimPrefix(sig, "race "), " || ")
 }
 
 // minimiseAndRecord shrinks the failing spec, writes the replay file and replays it once more in a fresh process.
@@ -533,14 +557,23 @@ func minimiseAndRecord(d *h.Driver, res *h.Result, v h.Violation, seed uint64) (
 	}
 	race := d.Race
 	fails := func(c *h.RunSpec) bool {
-		r, err := execFresh(c, race)
-		if err != nil || r == nil {
-			if os.Getenv("SIM_DEBUG") != "" {
-				fmt.Fprintln(os.Stderr, "execFresh:", err)
-			}
-			return false
+		tries := 1
+		if v.Class == "data-race" {
+			tries = 3 // the simulated execution is deterministic; the detector's report selection is not entirely
 		}
-		return sameViolation(r, v)
+		for t := 0; t < tries; t++ {
+			r, err := execFresh(c, race)
+			if err != nil || r == nil {
+				if os.Getenv("SIM_DEBUG") != "" {
+					fmt.Fprintln(os.Stderr, "execFresh:", err)
+				}
+				return false
+			}
+			if sameViolation(r, v) {
+				return true
+			}
+		}
+		return false
 	}
 	// the unminimised spec must itself reproduce in a fresh process
 	if !fails(spec) {
@@ -552,15 +585,24 @@ func minimiseAndRecord(d *h.Driver, res *h.Result, v h.Violation, seed uint64) (
 			budget = n
 		}
 	}
+	// all violations of one check share a pool of candidate executions, so that a tree with many
+	// violation signatures is still reported in bounded time (later ones are minimised less)
+	if shrinkPool < budget {
+		budget = shrinkPool
+	}
 	min, used := h.Shrink(spec, res.Switches, fails, budget)
+	shrinkPool -= used
 	dir := filepath.Join(verifDir(), "replays", d.ID)
 	os.MkdirAll(dir, 0o755)
-	path := filepath.Join(dir, fmt.Sprintf("%d-%d-%s.json", seed, res.Run, sanitize(v.Class)))
-	final, err := execFresh(min, race)
-	if err != nil || final == nil || !sameViolation(final, v) {
+	path := filepath.Join(dir, fmt.Sprintf("%d-%d-%s-%08x.json", seed, res.Run, sanitize(v.Class), fnv32(v.Signature)))
+	if !fails(min) {
 		return "", false, "minimised spec does not reproduce"
 	}
-	var fv h.Violation
+	final, err := execFresh(min, race)
+	if err != nil || final == nil {
+		return "", false, "minimised spec does not execute"
+	}
+	fv := v
 	for _, x := range final.Violations {
 		if x.Signature == v.Signature {
 			fv = x
@@ -576,6 +618,14 @@ func minimiseAndRecord(d *h.Driver, res *h.Result, v h.Violation, seed uint64) (
 		return "", false, err.Error()
 	}
 	return path, true, ""
+}
+
+func fnv32(s string) uint32 {
+	h := uint32(2166136261)
+	for i := 0; i < len(s); i++ {
+		h = (h ^ uint32(s[i])) * 16777619
+	}
+	return h
 }
 
 func sanitize(s string) string {
@@ -604,14 +654,24 @@ func replay(path string) int {
 		fmt.Fprintln(os.Stderr, "bad replay file:", err)
 		return 2
 	}
-	res, err := execFresh(rec.Spec, rec.Race)
-	if err != nil {
-		fmt.Fprintln(os.Stderr, "HARNESS:", err)
-		return 2
+	tries := 1
+	if rec.Class == "data-race" {
+		tries = 3
 	}
-	for _, v := range res.Violations {
-		if v.Signature == rec.Signature && v.Class == rec.Class {
-			fmt.Printf("reproduced: class=%s signature=%s\n  %s\n", v.Class, v.Signature, v.Detail)
+	var res *h.Result
+	for t := 0; t < tries; t++ {
+		var err error
+		res, err = execFresh(rec.Spec, rec.Race)
+		if err != nil {
+			fmt.Fprintln(os.Stderr, "HARNESS:", err)
+			return 2
+		}
+		if sameViolation(res, h.Violation{Property: rec.Property, Class: rec.Class, Signature: rec.Signature}) {
+			for _, v := range res.Violations {
+				if v.Class == rec.Class {
+					fmt.Printf("reproduced: class=%s signature=%s\n  %s\n", v.Class, v.Signature, v.Detail)
+				}
+			}
 			fmt.Printf("VIOLATION property=%s replay=%s\n", rec.Property, path)
 			return 1
 		}
@@ -641,6 +701,14 @@ func writeEvidence(d *h.Driver, tier string, seed uint64, runs int, stats map[st
 	if wall > 0 {
 		perHour = float64(runs) / wall * 3600
 	}
+	kinds := map[string]int{}
+	for c := range cover {
+		k := c
+		if i := strings.IndexByte(c, '/'); i > 0 {
+			k = c[:i]
+		}
+		kinds[k]++
+	}
 	ev := map[string]any{
 		"property_id": d.ID, "tier": tier, "seed": seed, "level": d.Level,
 		"coverage": map[string]any{
@@ -651,6 +719,7 @@ func writeEvidence(d *h.Driver, tier string, seed uint64, runs int, stats map[st
 			"simulated_runs":      runs,
 			"runs_per_hour":       int64(perHour),
 			"kernel_steps":        stats["steps"],
+			"distinct_by_kind":    kinds,
 			"faults_fired":        faults,
 			"counters":            other,
 			"known_findings":      known,
@@ -669,7 +738,103 @@ func writeEvidence(d *h.Driver, tier string, seed uint64, runs int, stats map[st
 	}
 }
 
+// selftest determinism <property> [runs] [seed]
+//
+// Every run index is executed (a) in a long-lived worker at GOMAXPROCS=1, ascending order,
+// (b) in a long-lived worker at GOMAXPROCS=4, descending order (different worker history),
+// (c) in a fresh process per run at GOMAXPROCS=16 — and the observable digests (outputs,
+// errors, schedule hash, step counts, violation signatures incl. normalised race reports) are diffed.
 func selftest(args []string) int {
-	fmt.Fprintln(os.Stderr, "selftest: not implemented yet")
-	return 2
+	if len(args) < 2 || args[0] != "determinism" {
+		fmt.Fprintln(os.Stderr, "usage: simcheck selftest determinism <property> [runs] [seed]")
+		return 2
+	}
+	d := h.Drivers[args[1]]
+	if d == nil {
+		fmt.Fprintln(os.Stderr, "unknown property", args[1])
+		return 2
+	}
+	n := 40
+	if len(args) > 2 {
+		n, _ = strconv.Atoi(args[2])
+	}
+	seed := uint64(1)
+	if len(args) > 3 {
+		seed, _ = strconv.ParseUint(args[3], 10, 64)
+	}
+	tier := envOr("SIM_SELFTEST_TIER", "quick")
+	fingerprint := func(r *h.Result) string {
+		var sigs []string
+		hasRace := false
+		for _, v := range r.Violations {
+			if v.Class == "data-race" {
+				hasRace = true // which racing pair is printed is detector-internal; that a race is reported is not
+				continue
+			}
+			sigs = append(sigs, v.Property+"|"+v.Class+"|"+v.Signature)
+		}
+		sort.Strings(sigs)
+		return fmt.Sprintf("digest=%s steps=%d cases=%d race=%v viol=%s", r.Digest, r.Stats["steps"], r.Stats["cases"], hasRace, strings.Join(sigs, ";"))
+	}
+	type cfg struct {
+		name  string
+		procs string
+		fresh bool
+		desc  bool
+	}
+	cfgs := []cfg{{"long-lived/GOMAXPROCS=1/ascending", "1", false, false}, {"long-lived/GOMAXPROCS=4/descending", "4", false, true}, {"fresh-process/GOMAXPROCS=16", "16", true, false}}
+	if d.Race {
+		// race workers execute one run per process (see startProc callers): all three configurations are fresh processes
+		// and at the one GOMAXPROCS value race workers always use (the detector keeps per-P state: its choice of which
+		// of several racing access pairs on one address to report varies with the number of Ps; see DESIGN.md §4)
+		cfgs = []cfg{{"fresh-process/a", "", true, false}, {"fresh-process/b/descending", "", true, true}, {"fresh-process/c", "", true, false}}
+	}
+	got := make([]map[int]string, len(cfgs))
+	for ci, c := range cfgs {
+		got[ci] = map[int]string{}
+		os.Setenv("SIM_WORKER_PROCS", c.procs)
+		var p *proc
+		for k := 0; k < n; k++ {
+			run := k
+			if c.desc {
+				run = n - 1 - k
+			}
+			if p == nil || c.fresh {
+				p.stop()
+				var err error
+				if p, err = startProc(d.Race); err != nil {
+					fmt.Fprintln(os.Stderr, "HARNESS:", err)
+					return 2
+				}
+			}
+			res, crashed, text, err := p.call(request{Cmd: "run", Property: d.ID, Seed: seed, Run: run, Tier: tier}, 120*time.Second)
+			if err != nil {
+				fmt.Fprintln(os.Stderr, "HARNESS:", err)
+				return 2
+			}
+			if crashed {
+				cl, sg := h.ClassifyCrash(text)
+				got[ci][run] = "crash " + cl + " " + sg
+				p.stop()
+				p = nil
+				continue
+			}
+			got[ci][run] = fingerprint(res)
+		}
+		p.stop()
+	}
+	bad := 0
+	for run := 0; run < n; run++ {
+		for ci := 1; ci < len(cfgs); ci++ {
+			if got[ci][run] != got[0][run] {
+				bad++
+				fmt.Printf("NONDETERMINISM property=%s seed=%d run=%d\n  %s: %s\n  %s: %s\n", d.ID, seed, run, cfgs[0].name, clip(got[0][run], 400), cfgs[ci].name, clip(got[ci][run], 400))
+			}
+		}
+	}
+	fmt.Printf("selftest determinism %s: %d runs x %d configurations, %d mismatches\n", d.ID, n, len(cfgs), bad)
+	if bad > 0 {
+		return 2
+	}
+	return 0
 }
